@@ -214,7 +214,7 @@ func relPair(class int, n int, reach hvKinds) (interface{}, interface{}, bool) {
 	return nil, nil, false
 }
 
-const numProducers = 16
+const numProducers = 19
 
 // producedValue: the result of producer p on symbolic numeric arguments.
 func producedValue(p int) (interface{}, bool) {
@@ -240,6 +240,12 @@ func producedValue(p int) (interface{}, bool) {
 		got = evaluateBinary(x, tok(token.PLUS, "+", 4), y)
 	case p == 14:
 		got = evaluateBinary(x, tok(token.MODULO, "%", 4), y)
+	case p == 16:
+		got = evaluateBinary(x, tok(token.RIGHT_SHIFT, ">>", 4), y)
+	case p == 17:
+		got = evaluateBinary(x, tok(token.AND, "&", 4), y)
+	case p == 18:
+		got = evaluateBinary(x, tok(token.XOR, "^", 4), y)
 	default: // string concatenation
 		got = evaluateBinary("a", tok(token.PLUS, "+", 4), string(hvText(1)))
 	}
@@ -382,24 +388,19 @@ func VH_printShared(which int) {
 	env.Define("r", inner)
 	env.Define("o", obj)
 	var node ast.Expr
-	var part string
 	switch which {
 	case 0: // [r, r]
 		node = &ast.ArrayLiteral{Elements: []ast.Expr{ident("r", 2), ident("r", 2)}, Line: 2}
-		part = "1 2"
 	case 1: // [o, o]
 		node = &ast.ArrayLiteral{Elements: []ast.Expr{ident("o", 2), ident("o", 2)}, Line: 2}
-		part = "k0:5"
 	case 3: // {a: o, b: o, c: {d: o}}: an object holding the same object under several properties
 		env.Define("p", map[string]interface{}{"a": obj, "b": obj, "c": map[string]interface{}{"d": obj}})
 		node = ident("p", 2)
-		part = "k0:5"
 	case 4: // {a: {x: 1, y: 2, z: 3}, b: 4, c: {u: 5}}: nested objects with several properties, with siblings after them
 		env.Define("p", map[string]interface{}{"a": map[string]interface{}{"x": 1.0, "y": 2.0, "z": 3.0}, "b": 4.0, "c": map[string]interface{}{"u": 5.0}})
 		node = ident("p", 2)
 	default: // [[o], o, [r, o]]
 		node = &ast.ArrayLiteral{Elements: []ast.Expr{&ast.ArrayLiteral{Elements: []ast.Expr{ident("o", 2)}, Line: 2}, ident("o", 2), &ast.ArrayLiteral{Elements: []ast.Expr{ident("r", 2), ident("o", 2)}, Line: 2}}, Line: 2}
-		part = "k0:5"
 	}
 	verifClearEvents()
 	in.eval(&ast.PrintStatement{Expression: node}, env, false)
@@ -407,13 +408,17 @@ func VH_printShared(which int) {
 	if hvCountStdout() == 1 {
 		text := verifEventText(0)
 		if which == 4 {
-			verifAssert("printed-object-shows-every-property", verifTextContainsInOrder(text, "a:", "x:1", "y:2", "z:3", "b:4", "c:", "u:5"))
+			verifAssert("printed-object-shows-every-property", verifTextContainsInOrder(text, "a", "x", "1", "y", "2", "z", "3", "b", "4", "c", "u", "5"))
 		} else if which == 3 {
-			verifAssert("printed-value-shows-a-shared-part-every-time", verifTextContainsInOrder(text, "a:", part, "b:", part, "d:", part))
+			verifAssert("printed-value-shows-a-shared-part-every-time", verifTextContainsInOrder(text, "a", "k0", "5", "b", "k0", "5", "d", "k0", "5"))
 		} else if which == 2 {
-			verifAssert("printed-value-shows-a-shared-part-every-time", verifTextContainsInOrder(text, part, part, "1 2", part))
+			verifAssert("printed-value-shows-a-shared-part-every-time", verifTextContainsInOrder(text, "k0", "5", "k0", "5", "1", "2", "k0", "5"))
 		} else {
-			verifAssert("printed-value-shows-a-shared-part-every-time", verifTextContainsInOrder(text, part, part))
+			if which == 0 {
+				verifAssert("printed-value-shows-a-shared-part-every-time", verifTextContainsInOrder(text, "1", "2", "1", "2"))
+			} else {
+				verifAssert("printed-value-shows-a-shared-part-every-time", verifTextContainsInOrder(text, "k0", "5", "k0", "5"))
+			}
 		}
 	}
 }
@@ -453,5 +458,36 @@ func VH_printNFC(where int) {
 		text := verifEventText(0)
 		verifAssert("printed-line-is-in-nfc", norm.NFC.String(text) == text)
 		verifAssert("nested-string-prints-as-its-characters", verifTextContainsInOrder(text, norm.NFC.String(t)))
+	}
+}
+
+// VH_printVsConcat (C15): for a number produced by any built-in or operator, the text + splices
+// into a string — on either side — is character for character what দেখাও prints.
+func VH_printVsConcat(p int) {
+	v, ok := producedValue(p)
+	if !ok {
+		verifReach("producer-failed")
+		return
+	}
+	if !hvIsNum(v) {
+		verifReach("not-a-number")
+		return
+	}
+	in := NewInterpreter()
+	env := environment.NewEnvironmentWithParent(in.globals)
+	env.Define("v", v)
+	utils.HadError, utils.HadRuntimeError = false, false
+	verifClearEvents()
+	in.eval(&ast.PrintStatement{Expression: ident("v", 4)}, env, false)
+	verifAssert("print-writes-exactly-one-line", hvCountStdout() == 1 && hvCountStderr() == 0)
+	if hvCountStdout() != 1 {
+		return
+	}
+	printed := verifEventText(0)
+	left := evaluateBinary(v, tok(token.PLUS, "+", 4), "")
+	right := evaluateBinary("", tok(token.PLUS, "+", 4), v)
+	verifAssert("bin-result-is-string", hvIsStr(left) && hvIsStr(right))
+	if hvIsStr(left) && hvIsStr(right) {
+		verifAssert("bin-string-result", hvStr(left)+"\n" == printed && hvStr(right)+"\n" == printed)
 	}
 }
